@@ -895,7 +895,7 @@ def run(ctx):
         ctx.check(ok, R8, 'filters::%s::operator():diverts-then-renders' % cls, why, f.where)
     # filters are passed around by value: a copy renders the same value through the same functions
     ncp = 0
-    for rec_ in ('cppcms::filters::streamable', 'cppcms::filters::escape', 'cppcms::filters::urlencode', 'cppcms::filters::base64_urlencode'):
+    for rec_ in ('cppcms::filters::streamable', 'cppcms::filters::escape', 'cppcms::filters::urlencode', 'cppcms::filters::base64_urlencode', 'cppcms::widgets::select_base::element'):
         flds_, cov_ = q.copy_coverage(P, rec_, skip=('d',))
         for g_, missing in sorted(cov_.items(), key=lambda kv: kv[0].id):
             ncp += 1
